@@ -337,6 +337,103 @@ def a1_argmax_comparator(F, r):
         r.fail("random_argmax: selection", "the maximum is no longer selected with max_by", F.loc(ra))
 
 
+ST = "rosomaxa::algorithms::math::statistics::"
+
+
+def _b(e, op):
+    rt = e[0]
+    if rt[0] == "bin" and rt[1] == op and not e[1]:
+        return rt[2], rt[3]
+    return None
+
+
+def _c(e, suffix):
+    return e[0][0] == "call" and e[0][1].endswith(suffix)
+
+
+def m1_statistics_formulas(F, r):
+    """the coefficient of variation the criterion compares with its threshold is stdev / mean of the window: mean = sum / n, variance = (Σdev² - (Σdev)²/n) / n (population
+    variance with the compensated sum), cv = sqrt(variance) / mean and 0 for a zero mean — canonical expressions"""
+    for f in ("get_cv", "get_variance_mean", "get_mean_slice"):
+        if ST + f not in F.fns:
+            raise AnchorError(ST + f)
+    # the formulas are recognised in their iterator form (sum / fold); an explicit-loop rewrite makes the accumulators opaque: then nothing is decided
+    has_fold = any(t["callee"].endswith("Iterator::fold") for _, t in mir.calls(F.fns[ST + "get_variance_mean"]))
+    has_sum = any(t["callee"].endswith("Iterator::sum") for _, t in mir.calls(F.fns[ST + "get_mean_slice"]))
+    if not has_fold or not has_sum:
+        r.ok("statistics helpers", "not decided: mean / variance are not written with Iterator::sum / Iterator::fold (loop form), their accumulators are not canonical expressions")
+        return
+
+    def rets(fid):
+        fn = F.fns[fid]
+        out = []
+        for _, _, st in mir.stmts(fn):
+            if st["d"]["l"] == 0 and not st["d"]["p"]:
+                if st["r"]["k"] == "use":
+                    out.append(mir.expr(fn, st["r"]["o"][0]))
+                elif st["r"]["k"] == "bin":
+                    out.append((("bin", st["r"]["op"], mir.expr(fn, st["r"]["o"][0]), mir.expr(fn, st["r"]["o"][1])), ()))
+                elif st["r"]["k"] == "agg":
+                    out.append((("agg", "", tuple(mir.expr(fn, o) for o in st["r"]["o"])), ()))
+        return out
+    # cv
+    rs = rets(ST + "get_cv")
+    zero = [e for e in rs if e[0] == ("const", "0f64")]
+    div = [e for e in rs if _b(e, "Div")]
+    ok = False
+    if len(div) == 1 and zero:
+        num, den = _b(div[0], "Div")
+        ok = _c(num, "f64>::sqrt") and num[0][2][0][0][0] == "call" and num[0][2][0][0][1].endswith("get_variance_mean") and num[0][2][0][1] == (".0",) \
+            and _c(den, "get_variance_mean") and den[1] == (".1",)
+    if ok:
+        r.ok("get_cv", "sqrt(variance) / mean; 0 when the mean is 0")
+    else:
+        r.fail("get_cv", "the coefficient of variation is not `sqrt(variance) / mean` (with 0 for a zero mean): the variation criterion compares another quantity with its threshold", F.loc(ST + "get_cv"))
+    # mean
+    rs = rets(ST + "get_mean_slice")
+    div = [e for e in rs if _b(e, "Div")]
+    ok = False
+    if len(div) == 1:
+        num, den = _b(div[0], "Div")
+        ok = _c(num, "Iterator::sum") and den[0][0] == "cast" and _c(den[0][2], "::len")
+    if ok:
+        r.ok("get_mean_slice", "sum / len")
+    else:
+        r.fail("get_mean_slice", "the mean is not `sum of the values / number of values`", F.loc(ST + "get_mean_slice"))
+    # variance
+    rs = [e for e in rets(ST + "get_variance_mean") if e[0][0] == "agg" and len(e[0][2]) == 2]
+    ok = False
+    if len(rs) == 1:
+        var, mean = rs[0][0][2]
+        d1 = _b(var, "Div")
+        if d1 and d1[1][0][0] == "cast" and _c(d1[1][0][2], "::len") and _c(mean, "get_mean_slice"):
+            sb = _b(d1[0], "Sub")
+            if sb and _c(sb[0], "Iterator::fold") and sb[0][1] == (".0",):
+                d2 = _b(sb[1], "Div")
+                if d2 and d2[1][0][0] == "cast" and _c(d2[1][0][2], "::len"):
+                    mu = _b(d2[0], "Mul")
+                    ok = bool(mu) and mu[0] == mu[1] and _c(mu[0], "Iterator::fold") and mu[0][1] == (".1",)
+    if ok:
+        r.ok("get_variance_mean: result", "(Σdev² - (Σdev)²/n) / n")
+    else:
+        r.fail("get_variance_mean: result", "the variance is not `(Σdev² - (Σdev)²/n) / n` over the window (population variance, no Bessel correction as documented)", F.loc(ST + "get_variance_mean"))
+    cl = F.children.get(ST + "get_variance_mean", [])
+    ok = False
+    if len(cl) == 1:
+        cfn = F.fns[cl[0]]
+        e = mir.expr(cfn, {"l": 0, "p": []})
+        if e[0][0] == "agg" and len(e[0][2]) == 2:
+            a0, a1 = e[0][2]
+            x0, x1 = _b(a0, "Add"), _b(a1, "Add")
+            if x0 and x1 and x0[0] == (("arg", 2), (".0",)) and x1[0] == (("arg", 2), (".1",)):
+                sq = _b(x0[1], "Mul")
+                ok = bool(sq) and sq[0] == sq[1] == x1[1] and _c(sq[0], "arith::Sub::sub") and sq[0][0][2][0] == (("arg", 3), ())
+    if ok:
+        r.ok("get_variance_mean: accumulation", "(Σ += dev², Σ += dev) with dev = value - mean")
+    else:
+        r.fail("get_variance_mean: accumulation", "the accumulation step is not (acc.0 + dev*dev, acc.1 + dev) with dev = value - mean", F.loc(ST + "get_variance_mean"))
+
+
 def run(ctx):
     ctx.explanation = (
         "Decided for every reward history, under real-number semantics (NaN / overflow / underflow NOT modelled): (S1) sign abstract interpretation shows the "
@@ -351,6 +448,7 @@ def run(ctx):
     ctx.assumptions += ["a gamma variate is >= 0", "rewards are finite reals", "float rounding, overflow and underflow are outside the sign domain"]
     ctx.run("C07-T1", "termination estimates stay within [0,1] by construction", c07.t1_estimates_clamped, floor=5)
     ctx.run("C18-V1", "variation criterion: universal fold over objectives with the documented per-objective step", v1_threshold_fold, floor=1)
+    ctx.run("C18-M1", "coefficient of variation = sqrt(population variance) / mean (canonical expressions of the statistics helpers)", m1_statistics_formulas, floor=1)
     ctx.run("C18-V2", "variation verdict reported iff global or exploitation phase", v2_phase_gating, floor=6)
     ctx.run("C18-S1", "SlotMachine learning state: shape > 0, rate > 0, variance >= 0 hold at construction and are preserved by every writer (sign analysis)", s1_slot_machine_invariants, floor=8)
     ctx.run("C18-S2", "distribution sampler arguments: gamma shape/scale > 0, normal std >= 0, no division by a possibly-zero value on the sampling path", s2_sampler_arguments, floor=3)
